@@ -6,7 +6,8 @@ package main
 // packets; net.Conn and tls.Conn behave this way).  A Read on an empty buffer parks and is counted, so the
 // harness can tell that the reader goroutine has finished everything that was fed so far ("idle": it asks
 // for the next header while nothing is buffered).  Write is atomic per call and recorded; a hook is
-// called for every complete write; optionally a write is held back until released.
+// called for every complete write; optionally a write is held back until released (by index, or by a predicate on
+// the bytes: a peer that is slow to accept e.g. the teardown packet of a logical channel).
 
 import (
 	"errors"
@@ -36,6 +37,7 @@ type pipeConn struct {
 	writes    [][]byte             // client -> peer, one entry per Write call
 	onWrite   func(w []byte)       // called (without the lock) after a write was recorded
 	holdFrom  int                  // writes with index >= holdFrom block until release (-1 = never)
+	holdIf    func(w []byte) bool  // writes for which this holds block until release (a peer slow to accept them)
 	release   chan struct{}        // closed to release held writes
 	held      int                  // writes currently held
 	failWrite func(idx int) error // optional write failure
@@ -102,7 +104,7 @@ func (p *pipeConn) Write(b []byte) (int, error) {
 		p.mu.Unlock()
 		return 0, errTransportClosed
 	}
-	hold := p.holdFrom >= 0 && idx >= p.holdFrom
+	hold := (p.holdFrom >= 0 && idx >= p.holdFrom) || (p.holdIf != nil && p.holdIf(b))
 	w := append([]byte{}, b...)
 	p.writes = append(p.writes, w)
 	if hold {
@@ -230,6 +232,7 @@ func (p *pipeConn) Closes() int {
 func (p *pipeConn) Release() {
 	p.mu.Lock()
 	p.holdFrom = -1
+	p.holdIf = nil
 	rel := p.release
 	p.release = make(chan struct{})
 	p.mu.Unlock()
